@@ -1,82 +1,9 @@
 -------------------------------- MODULE Conc --------------------------------
-(***************************************************************************)
-(* LEVEL B: MemoryFS (src/impls/memory.rs, as repaired) behind the VfsPath *)
-(* layer at LOCK-ACQUISITION granularity, N threads running small programs *)
-(* of public calls.  One micro-step = everything a call does under one     *)
-(* acquisition of the filesystem lock (these are exactly the yield points  *)
-(* of the verif-hooks feature):                                            *)
-(*   create_dir / cf_open : exists(parent) | metadata(parent) | check+insert*)
-(*   close (drop of a write handle) : publish the buffer if still a file   *)
-(*   ap_open, remove_file, remove_dir, exists, metadata, read_dir : 1 step *)
-(*   read (open_file + read_to_end) : set_access_time | lookup              *)
-(* C16: every terminal state is explained by running the SAME micro-steps  *)
-(* atomically in some order of the calls that respects program order       *)
-(* (write handles are two calls: open and close).                          *)
-(***************************************************************************)
-EXTENDS Naturals, Sequences, FiniteSets, TLC
-CONSTANTS Threads, Progs, Inits, U      \* U: universe of paths, Inits: set of initial maps, Progs: set of [Threads -> Seq(call)]
-
-Par(p) == SubSeq(p, 1, Len(p) - 1)
-None == [k |-> "none", d |-> <<>>]
-DirN == [k |-> "dir", d |-> <<>>]
-FileN(d) == [k |-> "file", d |-> d]
-Kind(f, p) == IF p = <<>> THEN "dir" ELSE f[p].k
-Kids(f, p) == {q \in U : Par(q) = p /\ f[q].k # "none"}
-NoH == [open |-> FALSE, buf |-> <<>>, p |-> <<>>]
-
-\* one micro-step of call c at step s: [f, h, done, res]
-D(f, h, r) == [f |-> f, h |-> h, done |-> TRUE, res |-> r]
-C(f, h) == [f |-> f, h |-> h, done |-> FALSE, res |-> <<"-">>]
-Err == <<"err">>
-Ok == <<"ok">>
-GetParent(c, s, f, h) ==      \* VfsPath::get_parent: exists(parent), then metadata(parent)
-  IF s = 0 THEN (IF Kind(f, Par(c.p)) = "none" THEN D(f, h, Err) ELSE C(f, h))
-  ELSE (IF Kind(f, Par(c.p)) # "dir" THEN D(f, h, Err) ELSE C(f, h))
-Micro(c, s, f, h) ==
-  CASE c.op = "create_dir" ->
-         IF s < 2 THEN GetParent(c, s, f, h)
-         ELSE IF Kind(f, Par(c.p)) # "dir" \/ f[c.p].k # "none" THEN D(f, h, Err)      \* one write lock: parent is a dir + occupancy + insert
-         ELSE D([f EXCEPT ![c.p] = DirN], h, Ok)
-    [] c.op = "cf_open" ->
-         IF s < 2 THEN GetParent(c, s, f, h)
-         ELSE IF Kind(f, Par(c.p)) # "dir" \/ f[c.p].k = "dir" THEN D(f, h, Err)
-         ELSE D([f EXCEPT ![c.p] = FileN(<<>>)], [open |-> TRUE, buf |-> <<>>, p |-> c.p], Ok)
-    [] c.op = "ap_open" ->
-         IF f[c.p].k # "file" THEN D(f, h, Err)
-         ELSE D(f, [open |-> TRUE, buf |-> f[c.p].d, p |-> c.p], Ok)
-    [] c.op = "close" ->                                                                 \* write_all (no lock) + drop (flush)
-         IF ~h.open THEN D(f, h, <<"nohandle">>)
-         ELSE D(IF f[h.p].k = "file" THEN [f EXCEPT ![h.p] = FileN(h.buf \o c.c)] ELSE f, NoH, Ok)
-    [] c.op = "create_dir_all" ->                         \* VfsPath::create_dir_all: fs.create_dir per prefix, DirectoryExists ignored
-         LET q == SubSeq(c.p, 1, s + 1) IN
-         IF Kind(f, Par(q)) # "dir" \/ f[q].k = "file" THEN D(f, h, Err)
-         ELSE LET f2 == IF f[q].k = "dir" THEN f ELSE [f EXCEPT ![q] = DirN] IN
-              IF s + 1 = Len(c.p) THEN D(f2, h, Ok) ELSE C(f2, h)
-    [] c.op = "remove_file" -> IF f[c.p].k # "file" THEN D(f, h, Err) ELSE D([f EXCEPT ![c.p] = None], h, Ok)
-    [] c.op = "remove_dir" ->
-         IF f[c.p].k # "dir" \/ Kids(f, c.p) # {} THEN D(f, h, Err) ELSE D([f EXCEPT ![c.p] = None], h, Ok)
-    [] c.op = "exists" -> D(f, h, <<"ok", f[c.p].k # "none">>)
-    [] c.op = "metadata" -> IF f[c.p].k = "none" THEN D(f, h, Err) ELSE D(f, h, <<"ok", f[c.p].k, Len(f[c.p].d)>>)
-    [] c.op = "read_dir" -> IF Kind(f, c.p) # "dir" THEN D(f, h, Err) ELSE D(f, h, <<"ok", Kids(f, c.p)>>)
-    [] c.op = "read" ->
-         IF s = 0 THEN (IF f[c.p].k = "none" THEN D(f, h, Err) ELSE C(f, h))              \* set_access_time under the write lock
-         ELSE (IF f[c.p].k # "file" THEN D(f, h, Err) ELSE D(f, h, <<"ok", f[c.p].d>>))  \* lookup under the read lock
-\* a write handle still open at the end of a thread's program is dropped (one more acquisition)
-DropStep(f, h) == IF h.open /\ f[h.p].k = "file" THEN [f EXCEPT ![h.p] = FileN(h.buf)] ELSE f
-
-\* ---- the sequential meaning: the same micro-steps without interruption
-RECURSIVE RunAtomic(_, _, _, _)
-RunAtomic(c, s, f, h) == LET m == Micro(c, s, f, h) IN IF m.done THEN m ELSE RunAtomic(c, s + 1, m.f, m.h)
-RECURSIVE SeqOut(_, _, _, _, _)
-SeqOut(prog, idx, f, hs, res) ==
-  IF \A t \in Threads : idx[t] > Len(prog[t])
-  THEN {<<res, [p \in U |-> LET open == {t \in Threads : hs[t].open /\ hs[t].p = p} IN
-                          IF open = {} THEN f[p] ELSE f[p]]>>}      \* (handles left open are dropped below)
-  ELSE UNION { LET m == RunAtomic(prog[t][idx[t]], 0, f, hs[t])
-                   f2 == IF idx[t] = Len(prog[t]) THEN DropStep(m.f, m.h) ELSE m.f
-                   h2 == IF idx[t] = Len(prog[t]) THEN NoH ELSE m.h IN
-               SeqOut(prog, [idx EXCEPT ![t] = @ + 1], f2, [hs EXCEPT ![t] = h2], [res EXCEPT ![t] = Append(@, m.res)])
-             : t \in {t \in Threads : idx[t] <= Len(prog[t])} }
+(* The concurrent system over the micro-steps of ConcOps (see there): N threads, one micro-step of one *)
+(* thread per transition; C16 / C17 as invariants of the terminal states.                               *)
+EXTENDS ConcOps
+CONSTANTS Threads, Progs, Inits      \* Inits: set of initial maps, Progs: set of [Threads -> Seq(call)]
+SeqOut(prog, idx, f, hs, res) == SeqOutT(Threads, prog, idx, f, hs, res)
 
 \* ---- the concurrent system
 VARIABLES prog, f0, files, idx, step, res, hs
